@@ -132,6 +132,19 @@ class LineSeam:
                     if isinstance(node, ast.Try) and any(h.type is None or (isinstance(h.type, ast.Name) and h.type.id == "BaseException") for h in node.handlers):
                         for stmt in node.body:
                             g.update(range(stmt.lineno, (stmt.end_lineno or stmt.lineno) + 1))
+                    if isinstance(node, ast.Try):
+                        # the `try:` line itself lies before the protected range, and the body of a `finally:` clause IS the recovery
+                        # path: neither can be made safe by any Python code (cf. __enter__/__exit__)
+                        g.add(node.lineno)
+                        for stmt in node.finalbody:
+                            g.update(range(stmt.lineno, (stmt.end_lineno or stmt.lineno) + 1))
+                        if node.finalbody:
+                            g.add(node.finalbody[0].lineno - 1)          # the `finally:` line
+                    if isinstance(node, (ast.ListComp, ast.SetComp, ast.DictComp)):
+                        # comprehensions are inlined into the enclosing function (PEP 709): an exception raised by a TRACE FUNCTION at the
+                        # repeated line events of their loop is not routed through the enclosing handlers (measured: selftest/lineseam.py),
+                        # unlike an exception raised by the code itself - so these lines are no crash points
+                        g.update(range(node.lineno, (node.end_lineno or node.lineno) + 1))
                     if isinstance(node, (ast.With, ast.AsyncWith)):
                         # the header line of a with statement is visited again when the block is left, between the end of the body and
                         # the call of __exit__: an exception injected by a trace function THERE is outside the protected range (the
